@@ -19,10 +19,11 @@ Theorem C17_pin_immutable : forall a ins c k,
 Proof. exact pin_immutable_thm. Qed.
 Print Assumptions C17_pin_immutable.
 
-(* auto-trust off: whatever happened before (pre), every enc stanza a step emits for c was produced by a
+(* auto-trust off: whatever happened before (pre: any inputs incl. restarts, but no kill - see the note on kills
+   below and C17_no_encrypt_to_stranger_with_kill_refuted), every enc stanza a step emits for c was produced by a
    session state built for the identity that is the remembered key of c *)
 Theorem C17_no_encrypt_to_stranger : forall auto pre i c m k sid n ident,
-  auto = false -> no_wipe pre ->
+  auto = false -> no_wipe pre -> no_kill pre ->
   let a1 := fst (run (init auto) pre) in
   In (OMsg c m k sid n ident) (snd (step a1 i)) ->
   lookup c (a_ids (fst (step a1 i))) = Some ident.
@@ -246,3 +247,96 @@ Theorem C17_save_identity_exclusive_refuted :
     lookup c0 (save_identity ids c k) = Some k /\ trusted (save_identity ids c k) c0 k' = false.
 Proof. exact save_identity_exclusive_refuted. Qed.
 Print Assumptions C17_save_identity_exclusive_refuted.
+
+(* ---- kills at a write boundary.  IKill k n = the process is killed while it handles the store-writing input k
+   (application send, key answer, message), after the n-th commit of that handling, and a new process starts over
+   the durable state the file had at that moment (C17Model.durable_states: the state before the input, then one per
+   commit - a transaction not committed is rolled back when the database is opened again, so these are ALL the
+   states a kill at a statement or commit boundary can leave behind).  `run`, hence C17_pin_immutable,
+   C17_pin_enforced_after_restart, C17_reachable_durable, C17_survives_restart above, quantify over histories that
+   contain such kills in any number, at any input and any boundary.
+   NOT claimed with kills: C17_no_encrypt_to_stranger (hypothesis no_kill) - python-axolotl stores the session first
+   and saves the identity last, in two transactions; a kill between them at FIRST contact leaves a session whose
+   identity is not remembered (witness: C17Proofs.no_encrypt_to_stranger_with_kill_refuted).  The harness kills only
+   inside inputs about contacts that are already pinned. ---- *)
+
+(* saveIdentity takes the store through exactly one new durable state, the one holding the new row: its DELETE and
+   INSERT share a transaction, the contact is never without a row; other contacts' rows are untouched *)
+Theorem C17_store_identity_two_states : forall a c k,
+  a_log (store_identity a c k) = (save_identity (a_ids a) c k, a_sess a) :: a_log a /\
+  lookup c (save_identity (a_ids a) c k) = Some k /\
+  (forall c0, c <> c0 -> lookup c0 (save_identity (a_ids a) c k) = lookup c0 (a_ids a)).
+Proof. exact store_identity_two_states_thm. Qed.
+Print Assumptions C17_store_identity_two_states.
+
+(* every durable state the store passes through while any store-writing input is handled still holds every
+   remembered key (auto-trust off) *)
+Theorem C17_kill_states_keep_pins : forall a k c key d,
+  a_auto a = false -> durable a -> lookup c (a_ids a) = Some key ->
+  In d (durable_states a k) -> lookup c (fst d) = Some key.
+Proof. exact kill_states_keep_pins_thm. Qed.
+Print Assumptions C17_kill_states_keep_pins.
+
+(* for every history with restarts and kills at any write boundary the pin theorems still hold: the remembered key
+   stays, the flag stays, the state is durable, and another identity is refused (first message / bundle for a send /
+   bundle after a notification) *)
+Theorem C17_pin_survives_kill : forall a ins c key,
+  a_auto a = false -> durable a -> no_wipe ins ->
+  lookup c (a_ids a) = Some key ->
+  let a' := fst (run a ins) in
+  lookup c (a_ids a') = Some key /\ a_auto a' = false /\ durable a' /\
+  (forall m e, e_kind e = EPk -> e_ident e <> key -> step a' (IMsg c m e) = (a', [])) /\
+  (forall iq res m k' sid, lookup iq (a_iqs a') = Some (KSend c m) -> lookup c res = Some (k', sid) -> k' <> key ->
+     snd (step a' (IKeys iq res)) = [OErr c]) /\
+  (forall iq res k' sid, lookup iq (a_iqs a') = Some (KNotify c) -> lookup c res = Some (k', sid) -> k' <> key ->
+     step a' (IKeys iq res) = (set_iqs a' (remove_key iq (a_iqs a')) (a_iqctr a'), [])).
+Proof. exact pin_survives_kill_thm. Qed.
+Print Assumptions C17_pin_survives_kill.
+
+Theorem C17_kill_keeps_pin : forall a k n c key,
+  a_auto a = false -> durable a -> lookup c (a_ids a) = Some key ->
+  lookup c (a_ids (fst (step a (IKill k n)))) = Some key /\ durable (fst (step a (IKill k n))) /\
+  a_auto (fst (step a (IKill k n))) = false.
+Proof. exact kill_keeps_pin_thm. Qed.
+Print Assumptions C17_kill_keeps_pin.
+
+(* non-vacuity, computed: pinned contact 7, bundle fetched again after a notification, process killed after the session
+   store's commit and before saveIdentity's; all three durable states of that input hold key 1; afterwards the retry
+   bundle with key 2 is refused and the first message with key 2 ignored *)
+Theorem C17_kill_history :
+  snd (run (init false) history_kill) =
+  [ [OGetKeys 0 7]; [OMsg 7 1 EPk 50 0 1]; [ODeliver 7 2 2; OReceipt 7 2];
+    [ONotifAck 7 3; OGetKeys 1 7]; [];
+    [OMsg 7 4 EPk 51 0 1]; [OGetKeys 2 7]; [OErr 7];
+    [] ]
+  /\ lookup 7 (a_ids (fst (run (init false) history_kill))) = Some 1
+  /\ map (fun d => lookup 7 (fst d))
+         (durable_states (fst (run (init false) (firstn 4 history_kill))) (KiKeys 1 [(7, (1, 51))]))
+     = [Some 1; Some 1; Some 1].
+Proof. exact kill_history_no_autotrust. Qed.
+Print Assumptions C17_kill_history.
+
+(* REFUTED for the variant whose saveIdentity is not atomic (DELETE and INSERT durable separately, seeded defect
+   C17-6): the store passes through a state without a row for the contact, and a process reborn from it takes
+   another identity from a bundle with auto-trust off; all three durable states of the code as it is hold the key *)
+Theorem C17_save_identity_nonatomic_refuted :
+  exists a c k k' sid,
+    a_auto a = false /\ durable a /\ lookup c (a_ids a) = Some k /\ k' <> k /\
+    let d := nth 1 (save_identity_nonatomic_states a c k) (a_dids a, a_dsess a) in
+    lookup c (fst d) = None /\
+    let b := reborn a d in
+    let b1 := fst (step b (INotify c 9)) in
+    lookup c (a_ids (fst (step b1 (IKeys (a_iqctr b) [(c, (k', sid))])))) = Some k' /\
+    Forall (fun d => lookup c (fst d) = Some k) (durable_states a (KiKeys 1 [(c, (k, sid))])) /\
+    length (durable_states a (KiKeys 1 [(c, (k, sid))])) = 3%nat.
+Proof. exact save_identity_nonatomic_refuted. Qed.
+Print Assumptions C17_save_identity_nonatomic_refuted.
+
+(* REFUTED: C17_no_encrypt_to_stranger without its no_kill hypothesis (kill between storeSession and saveIdentity at
+   first contact) *)
+Theorem C17_no_encrypt_to_stranger_with_kill_refuted :
+  exists pre i c m k sid n ident,
+    no_wipe pre /\ In (OMsg c m k sid n ident) (snd (step (fst (run (init false) pre)) i)) /\
+    lookup c (a_ids (fst (step (fst (run (init false) pre)) i))) = None.
+Proof. exact no_encrypt_to_stranger_with_kill_refuted. Qed.
+Print Assumptions C17_no_encrypt_to_stranger_with_kill_refuted.
